@@ -126,6 +126,9 @@ class Time(object):
         Time
             The resulting time as a Time instance.
         """
+        if isinf(self._quotient):
+            # An infinite time stays infinite (divmod(inf, 1.0) would yield nan).
+            return Time(self._quotient, self._remainder)
         if not isinf(other):
             add_quotient, new_remainder = divmod(self._remainder + other, 1.0)
             return Time(self._quotient + add_quotient, new_remainder)
